@@ -81,6 +81,8 @@ Raw ==
     /\ phase = "idle" /\ l <= Len(Rec) /\ E.ev = "Raw"
     /\ LET b == E.bytes IN
        /\ ResClass(E.open) \in OpenClasses(b)
+       \* what a builder produced opens and passes verify() (C08, first sentence)
+       /\ (E.built => E.open = OkRes /\ E.verify = OkRes)
        /\ (E.open.err = "Format" => E.open.size = Len(b))
        /\ (E.open.err = "Version" => E.open.got = VersionOf(b) /\ E.open.expected = <<3>>)
        /\ (E.open = OkRes =>
@@ -113,7 +115,36 @@ NodeEv ==
        /\ IndexOK(b, addr, 3, n)
     /\ l' = l + 1 /\ UNCHANGED <<phase, cursor, pending, nodes, crcT>>
 
-Next == FileBegin \/ ChainStep \/ FileEnd \/ Raw \/ Sum \/ NodeEv
+\* the reader's node-level view (raw::Fst::root / node and the Node accessors)
+\* of a well-formed file of any version: every node reachable from the root
+\* must be presented exactly as the format decodes it
+NodeViewOK(b, v, nd) ==
+    \E n \in {DecodeNode(b, nd.addr, v)} :
+       /\ NodeOK(b, nd.addr, v, n)
+       /\ nd.final = n.final /\ nd.fout = n.fout
+       /\ nd.len = Len(n.trans) /\ nd.empty = (Len(n.trans) = 0)
+       /\ nd.trans = [i \in 1..Len(n.trans) |-> <<n.trans[i].inp, n.trans[i].out, n.trans[i].addr>>]
+       \* find_input: exactly the inputs present, each at its position
+       /\ { nd.find[j] : j \in 1..Len(nd.find) } = { <<n.trans[i].inp, i - 1>> : i \in 1..Len(n.trans) }
+       /\ Len(nd.find) = Len(n.trans)
+       /\ nd.state = n.form
+       /\ nd.slice = (IF nd.addr = 0 THEN <<>> ELSE SubSeq(b, n.start + 1, nd.addr + 1))
+
+View ==
+    /\ phase = "idle" /\ l <= Len(Rec) /\ E.ev = "View"
+    /\ \E b \in {E.bytes} : \E v \in {VersionNat(VersionOf(b))} :
+       LET A == { E.nodes[j].addr : j \in 1..Len(E.nodes) } IN
+       /\ "Ok" \in OpenClasses(b)
+       /\ E.root = RootAddr(b, v)
+       /\ UFromNat(E.len) = NumKeys(b, v) /\ E.size = Len(b) /\ E.ty = TypeOf(b)
+       /\ E.root \in A
+       /\ Cardinality(A) = Len(E.nodes)
+       /\ TRUE = (\A j \in 1..Len(E.nodes) :
+                     /\ NodeViewOK(b, v, E.nodes[j])
+                     /\ \A i \in 1..Len(E.nodes[j].trans) : E.nodes[j].trans[i][3] \in A)
+    /\ l' = l + 1 /\ UNCHANGED <<phase, cursor, pending, nodes, crcT>>
+
+Next == FileBegin \/ ChainStep \/ FileEnd \/ Raw \/ Sum \/ NodeEv \/ View
 Spec == Init /\ [][Next]_vars
 
 \* acceptance: l ran past the last event.  The diameter counts chain steps too,
